@@ -572,6 +572,13 @@ def main():
         cmds.append(cmd)
         mm = re.search(r"ENUM-OK cases=(\d+)", out)
         mw = re.search(r"WITNESS (.*)", out) or (re.search(r"(panicked at [^\n]*\n[^\n]*)", out) if "test result: FAILED" in out else None)
+        # failing inputs the enumerator classified under a key: a listed known finding, or else a violation
+        for mk in re.finditer(r"KNOWN-CANDIDATE (\S+) ([^\n]*)", out):
+            fk = {"fn": nc["name"], "kind": "native-enum", "clause": (mk.group(1) + " " + mk.group(2))[:400], "text": out[-3000:], "harness": nc["name"]}
+            kk = match_known(known, pid, fk)
+            if kk:
+                if not any(k0 is kk for (k0, _) in known_hits): known_hits.append((kk, fk))
+            else: violations.append(("native", nc["name"], fk))
         if mm:
             bounded.append({"harness": nc["name"], "bound": nc.get("bound", ""), "cases": int(mm.group(1)), "status": "SUCCESSFUL"})
         elif mw:
